@@ -61,7 +61,7 @@ Definition parse_auth_cred_json (O : oracles) (inp : pystr + json) : res auth_cr
   let* sg := get_str resp "signature" in
   guard (enum_has cred_type_enum (jget_none m (s2l "type"))) (Lib InvalidJSONStructure) ;;;
   let* uh := match jget_none resp (s2l "userHandle") with
-             | JStr s => let* b := b64url_dec s in Ok (Some b)      (* decoded OUTSIDE the wrapping try *)
+             | JStr s => wrap InvalidAuthenticationResponse (let* b := b64url_dec s in Ok (Some b))
              | JNull => Ok None
              | _ => Err (Lib InvalidJSONStructure)
              end in
